@@ -133,6 +133,8 @@ class IpcCommand:
             return 0
         elif isinstance(ret, tuple):
             code, response = ret
+            # the reply is consumed as exactly one line by the bash side
+            response = " ".join(str(response).split())
             return f"{code}\x07{response}"
         elif isinstance(ret, (int, str)):
             return f"0\x07{ret}"
@@ -242,14 +244,22 @@ class _InstallWrapper(IpcCommand):
         self.parser.set_defaults(
             insoptions=self.insoptions_default, diroptions=self.diroptions_default
         )
+        self._init_coroutines()
 
-        # initialize file/dir creation coroutines
+    def _init_coroutines(self):
+        """Initialize file/dir creation coroutines.
+
+        Done for every request since a coroutine that raised (failed install)
+        is exhausted and a previous request might have switched to the
+        `install` command fallback.
+        """
         self.install = self._install().send
         self.install_dirs = self._install_dirs().send
         self.install_symlinks = self._install_symlinks().send
         self.install_from_dirs = self._install_from_dirs().send
 
     def parse_args(self, *args, **kwargs):
+        self._init_coroutines()
         args = super().parse_args(*args, **kwargs)
         self.parse_install_options()
         return args
@@ -471,8 +481,8 @@ class _InstallWrapper(IpcCommand):
                 sources = [path for path, _ in files_group]
                 command = ["install"] + self.opts.insoptions + sources + [dest]
                 ret, output = spawn.spawn_get_output(command, collect_fds=(2,))
-                if not ret:
-                    raise IpcCommandError("\n".join(output), code=ret)
+                if ret:
+                    raise IpcCommandError(" ".join(x.strip() for x in output), code=ret)
 
     @coroutine
     def _install_dirs(self):
@@ -507,8 +517,8 @@ class _InstallWrapper(IpcCommand):
             dirs = self._prefix_targets(dirs, files=False)
             command = ["install", "-d"] + self.opts.diroptions + list(dirs)
             ret, output = spawn.spawn_get_output(command, collect_fds=(2,))
-            if not ret:
-                raise IpcCommandError("\n".join(output), code=ret)
+            if ret:
+                raise IpcCommandError(" ".join(x.strip() for x in output), code=ret)
 
     @coroutine
     def _install_symlinks(self):
@@ -597,7 +607,10 @@ class Keepdir(Dodir):
         filename = f".keep_{self.pkg.category}_{self.pkg.PN}-{self.pkg.slot}"
         for x in args.targets:
             path = pjoin(self.op.ED, x.lstrip(os.path.sep), filename)
-            open(path, "w").close()
+            try:
+                open(path, "w").close()
+            except OSError as e:
+                raise IpcCommandError(f"failed creating file: {path!r}: {e.strerror}")
 
 
 class Doexe(_InstallWrapper):
